@@ -64,7 +64,11 @@ func (o *allocOracle) mkCase(s *ctlSys, hist []verifrt.Event) allocCase {
 			if len(e.C) > 0 {
 				x += fmt.Sprintf(" [map order choices %v]", e.C)
 			}
-			if e.B > 0 {
+			if e.B == 3 {
+				x += " [getting the Service fails]"
+			} else if e.B == 2 {
+				x += " [listing the Services fails]"
+			} else if e.B > 0 {
 				x += " [status write fails]"
 			}
 			if e.A == 1 {
@@ -320,6 +324,16 @@ func (o *allocOracle) after(sys verifrt.System, hist []verifrt.Event, ev verifrt
 				}
 			}
 		}
+	}
+
+	// ---------- C18, integrated: the pool reconciler in front of the real allocator ----------
+	if prop == "C18" && ev.Kind == "pool" && ev.B == 0 && s.poolDeliveryUnchanged && s.poolHandlerCalled {
+		full := "without a full re-sync"
+		if s.svcQ.Has("reload") {
+			full = "and-a-full-re-sync-of-all-services"
+		}
+		o.violate(s, hist, "C18 an unchanged snapshot looked like a configuration change to the pool reconciler: pools handed over again "+full+" after="+s.lastUserDesc,
+			"the allocator already had exactly the cluster's pools (handed over successfully before); nothing the reconciler reads changed")
 	}
 
 	// ---------- C11 (every state) ----------
@@ -829,6 +843,7 @@ func runAlloc(t *testing.T, prop string) {
 		depth = 4
 	}
 	menus := ""
+	poolResyncMenu = prop == "C18"
 	switch prop {
 	case "C06":
 		faultMenu, crashMenu = true, true
@@ -837,7 +852,10 @@ func runAlloc(t *testing.T, prop string) {
 		// one failing status write (no crash) is part of the environment of C03 in the universes where a service
 		// can be rewritten while keeping its address (PreferDualStack top-up)
 		faultMenu = true
-		menus = "fault+poolfault"
+		menus = "fault+poolfault+readfault"
+	}
+	if prop == "C18" {
+		depth-- // the reconciler's comparison is at stake, not the allocation histories: one event less than the allocation group
 	}
 	if d := os.Getenv("VERIF_DEPTH"); d != "" {
 		fmt.Sscan(d, &depth)
@@ -881,6 +899,7 @@ func runAlloc(t *testing.T, prop string) {
 		faultMenu = strings.Contains(c.Menus, "fault")
 		crashMenu = strings.Contains(c.Menus, "crash")
 		poolFaultMenu = strings.Contains(c.Menus, "poolfault")
+		readFaultMenu = strings.Contains(c.Menus, "readfault")
 		for _, u := range universes(c.Thorough) {
 			if u.Name == c.Universe {
 				o := &allocOracle{prop: prop, res: res, u: u, thorough: c.Thorough, menus: c.Menus}
@@ -1013,14 +1032,18 @@ func runAlloc(t *testing.T, prop string) {
 			if prop == "C03" && thorough && u.Name == "dual" {
 				maxFault = 1 // depth 4 + one failing write reaches "top-up write fails while another service allocates"
 			}
-			poolFaultMenu = false
+			poolFaultMenu, readFaultMenu = false, false
 			if prop == "C03" {
 				faultMenu = true
+			}
+			if prop == "C03" && !(thorough && u.Name == "dual") {
+				// a Get of the Service failing once inside a delivery: the service still exists, nothing may be released
+				faultMenu, readFaultMenu, maxFault = false, true, 1
 			}
 			if prop == "C03" && !(thorough && u.Name == "dual") && (u.Name == "policy" || u.Name == "reconf") {
 				// a failing List in the pool reconciler (namespaces, pools, communities): nothing in the cluster changed, so
 				// no service may move
-				faultMenu, poolFaultMenu, maxFault = false, true, 1
+				poolFaultMenu = true
 			}
 			if prop == "C06" {
 				maxFault = 1
@@ -1066,3 +1089,8 @@ func TestVerif_C03(t *testing.T) { runAlloc(t, "C03") }
 func TestVerif_C06(t *testing.T) { runAlloc(t, "C06") }
 func TestVerif_C07(t *testing.T) { runAlloc(t, "C07") }
 func TestVerif_C11(t *testing.T) { runAlloc(t, "C11") }
+
+// TestVerif_C18ctl: C18 in the integrated controller - the real PoolReconciler handing its configuration to the real
+// controller/allocator, which keep using (and must not alter) the very objects the reconciler compares its next
+// computation with. Same graph as the allocation group plus an event that re-runs the reconciler with nothing changed.
+func TestVerif_C18ctl(t *testing.T) { runAlloc(t, "C18") }
